@@ -1461,13 +1461,15 @@ func (t *table) gc(now bigtable.Timestamp, done <-chan struct{}, force bool) {
 
 	// TODO(scottb): could collect batches of rows that need GC with only a read lock, update with write lock.
 
-	i := 0
-	t.rows.Ascend(func(r *btpb.Row) bool {
+	// collect applies the rules to the row stored under key now; a row left without
+	// cells is not written back but reported, so that the caller can delete it.
+	collect := func(key keyType) (emptied bool) {
 		// The iteration may run over a snapshot taken before the lock was last
 		// released: always collect the row as it is stored now, so that a write
 		// acknowledged in between is never reverted.
-		if r = t.rows.Get(r.Key); r == nil {
-			r = &btpb.Row{}
+		r := t.rows.Get(key)
+		if r == nil {
+			return false
 		}
 		changed := false
 		for _, fam := range r.Families {
@@ -1482,7 +1484,29 @@ func (t *table) gc(now bigtable.Timestamp, done <-chan struct{}, force bool) {
 		}
 		if changed {
 			r, _ := scrubRow(r, t.cols())
+			if len(r.Families) == 0 {
+				return true
+			}
 			t.rows.ReplaceOrInsert(r)
+		}
+		return false
+	}
+
+	// Rows must not be deleted while iterating (see DropRowRange); rows left without
+	// cells are deleted after the iteration, once re-checked under the lock.
+	var emptied []keyType
+	defer func() {
+		for _, key := range emptied {
+			if collect(key) {
+				t.rows.Delete(key)
+			}
+		}
+	}()
+
+	i := 0
+	t.rows.Ascend(func(r *btpb.Row) bool {
+		if collect(r.Key) {
+			emptied = append(emptied, r.Key)
 		}
 		i++
 		if i%100 != 0 {
